@@ -22,6 +22,7 @@ type devScript struct {
 	qStatus  uint64
 	qOutLen  uint32
 	qWrite   []byte
+	qLength  uint64 // non-zero: the device stores this into the request's Length field
 }
 
 type scriptedDevice struct {
@@ -67,6 +68,9 @@ func (d *scriptedDevice) Ioctl(command uintptr, argument any) (uintptr, error) {
 		copy(h.Data[:], d.s.qWrite)
 		h.Status = d.s.qStatus
 		h.OutLen = d.s.qOutLen
+		if d.s.qLength != 0 {
+			r.Length = d.s.qLength
+		}
 		return uintptr(d.s.qCode), nil
 	}
 	d.bad = fmt.Sprintf("unexpected request type %T", argument)
@@ -144,10 +148,14 @@ func c15Expect(s devScript, rd []byte) (ok bool, data []byte, reqs int) {
 }
 
 func C15(c *core.Ctx) {
-	c.Rule = "scripted client.Device / client.QuoteProvider behaviours: grid of (report err/code) x (quote err/code) x status x OutLen x written-bytes, plus random scripts and provider behaviours; non-trivial = the quote request was reached (report request succeeded) or a provider was consulted; distinct = distinct (script, report data)"
+	c.Rule = "scripted client.Device / client.QuoteProvider behaviours: grid of (report err/code) x (quote err/code) x status x OutLen x written-bytes, plus devices that write a larger Length back, consecutive calls (an earlier result must survive a later call), random scripts and provider behaviours; non-trivial = the quote request was reached (report request succeeded) or a provider was consulted; distinct = distinct (script, report data)"
 	r := c.Rng
 	statuses := []uint64{0, labi.GetQuoteInFlight, labi.GetQuoteError, labi.GetQuoteServiceUnavailable, 5, 1 << 40}
 	writeLens := []int{0, 7, 1024, 1025, 5000, labi.ReqBufSize}
+	// the bytes returned by an earlier call belong to the caller: a later call must not change them
+	var prevOut, prevCopy []byte
+	c.Lookahead = 1 // (replay: the case before the recorded one runs too)
+	defer func() { c.Lookahead = 0 }()
 	addDev := func(class string, s devScript, both *provScript) {
 		if !c.Wanted() {
 			c.Add(&core.Case{Class: class, SkipModel: true, Impl: core.Ls()})
@@ -190,6 +198,12 @@ func C15(c *core.Ctx) {
 			}
 			if gt == "" && len(dev.reqs) >= 1 && !bytes.Equal(dev.reqs[0].Nth(1).B, rd[:]) {
 				gt = "report data was not relayed unchanged"
+			}
+			if gt == "" && prevOut != nil && !bytes.Equal(prevOut, prevCopy) {
+				gt = "the quote returned by the previous call changed when this one was fetched (the result aliases memory the client re-uses)"
+			}
+			if err == nil && len(out) > 0 {
+				prevOut, prevCopy = out, append([]byte{}, out...)
 			}
 			if gt == "" && len(dev.reqs) == 2 {
 				td := make([]byte, labi.TdReportSize)
@@ -238,6 +252,16 @@ func C15(c *core.Ctx) {
 				}
 			}
 		}
+	}
+	// a device that writes a larger Length back into the request and reports an OutLen up to it
+	for _, ln := range []uint64{labi.ReqBufSize + 24, 1 << 20, 1 << 32} {
+		for _, ol := range []uint32{labi.ReqBufSize, labi.ReqBufSize + 1, labi.ReqBufSize + 24, uint32(ln)} {
+			addDev("length-written-back", devScript{repWrite: core.RandBytes(r, 1024), qOutLen: ol, qWrite: core.RandBytes(r, 500), qLength: ln}, nil)
+		}
+	}
+	// two good quotes in a row (the first must survive the second)
+	for i := 0; i < 4; i++ {
+		addDev("consecutive", devScript{repWrite: core.RandBytes(r, 1024), qOutLen: 5000, qWrite: bytes.Repeat([]byte{byte(3 + i)}, 5000)}, nil)
 	}
 	// random scripts
 	for i := 0; i < c.Scale(300, 5000); i++ {
